@@ -272,6 +272,13 @@ async def attempt(loop, ctx, flow: dict[str, Any], resp, supp, air, script: Scri
                 script.after_offer.append(lambda heard_in, frame=frame, extra=extra: air.inject(frame, delay=heard_in + extra, faultable=False))
             else:
                 air.inject(frame, delay=rng.choice((0.0, 0.005, 0.02, 0.1, 1.0, 3.0)), faultable=False)
+        if rng.random() < 0.4:
+            # a neighbour's device that mistakes our respondent for its own: its Confirm is addressed to our respondent
+            # although it never made the offer our respondent accepted
+            rid = list(flow["resp"])[0]
+            stray = f" I --- 34:111111 {rid} --:------ 1FC9 006 {idx}2309AAAAAA"
+            air.inject(stray, delay=rng.choice((0.03, 0.1, 0.2, 0.5)), faultable=False)
+            script.applied.append("stray-confirm-to-our-respondent")
     await asyncio.wait([r_task, s_task])
     return out
 
@@ -322,6 +329,10 @@ async def episode(loop: vloop.VirtualLoop, ctx, trial: int) -> None:
     await vloop.drain(loop, 6)
     ctx.count("attempts")
     clean = benign(script) and stagger < 4.0 and cancel is None
+    if "stray-confirm-to-our-respondent" in script.applied and script.plan.get("confirm", {}).get("kind") == "echo_lost":
+        # with the echo of its own Confirm lost, the only packet the supplicant's sender can take for that echo is the
+        # neighbour's Confirm (same header): echoes are matched by header (C06 / C07's stated level) - not judged here
+        clean = False
     ctx.count("attempts.clean_expected" if clean else "attempts.faulted")
 
     def judge(out: dict[str, Any], tag: str, must_succeed: bool) -> None:
